@@ -18,7 +18,9 @@ ID = "C10"
 RULE = ("cases = (autocorrelation vector built from reflection coefficients and r0 | acorr of a "
         "Q block | free rational vector, order in default/1..len-1/>=len) for levinson_durbin, "
         "(Q block, order, strategy alias, perturbation) for lpc.kautocor / lpc.kcovar, "
-        "(function, block, lag) for acorr/lag_matrix/toeplitz; oracle = exact residuals of the "
+        "(function, block, lag) for acorr/lag_matrix/toeplitz, (size 300..4200/9000 free or next to a "
+        "multiple of a usual chunk size, function, lag, number type) for long blocks, (2..4 calls on "
+        "pulse/sparse/dense blocks, all results held and judged again at the end); oracle = exact residuals of the "
         "defining normal equations, directly summed energies, exact singularity test of the "
         "leading minors; non-trivial = order >= 2 and no reflection coefficient of the exact "
         "solution is 0 (tables: length >= 2 and lag >= 1); distinct = distinct case hash")
@@ -28,6 +30,7 @@ ASSUMPTIONS = [
   "on vectors where some leading minor is singular only ParCorError is accepted from levinson_durbin / lpc.kautocor (the property is silent there)",
   "lpc.kcovar may raise ValueError('Unstable filter') / ZeroDivisionError; only returned filters are judged (share of returns has a floor)",
   "numpy strategies (lpc.nautocor, lpc.covar, lpc.autocor) are out of scope: numpy is not installed",
+  "a returned filter / table is the result of its call for as long as the caller holds it: later calls of the same functions on other data must not change it (held_results)",
   "lag_matrix with max_lag >= len(blk) (documented ValueError) and empty blocks are outside the quantified domain",
 ]
 
@@ -120,6 +123,9 @@ def coeffs_of(filt, p, what):
 
 
 def show(v):
+  v = list(v)
+  if len(v) > 40:
+    return "<%d samples: %s, ...>" % (len(v), ", ".join(str(Fraction(x)) for x in v[:6]))
   return "[" + ", ".join(str(Fraction(x)) for x in v) + "]"
 
 
@@ -460,6 +466,221 @@ def run_kcovar(case):
   return {"nontrivial": nt, "labels": labels + ["order %d" % min(p, 9)]}
 
 
+# ------------------------------------------------------- long blocks (size scale)
+_BASES = [128, 250, 256, 500, 512, 1000, 1024]
+
+
+def strat_long(tier):
+  """Blocks of several hundred to several thousand samples: "bounded length" has
+  no small bound in the property, and code may switch its summation scheme at
+  any size.  Sizes are drawn freely over the whole scale and next to multiples
+  of the usual chunk / buffer sizes."""
+  hi = 4200 if tier == "quick" else 9000
+  # bands first (st.integers over a wide range favours its low end), then a size inside the band
+  edges = [300, 1024, 2048, 3072, 4200] + ([6000, 9000] if hi > 4200 else [])
+  bands = [(lo + (1 if i else 0), up) for i, (lo, up) in enumerate(zip(edges, edges[1:]))]
+  free = st.sampled_from(bands).flatmap(lambda b: st.integers(b[0], b[1]))
+  mults = sorted(set(b * m for b in _BASES for m in range(1, hi // b + 1) if 302 <= b * m <= hi - 2))
+  near = st.tuples(st.sampled_from(mults), st.integers(-2, 2)).map(lambda t: t[0] + t[1])
+  size = st.sampled_from(["free", "free", "near"]).flatmap(lambda k: free if k == "free" else near)
+  return st.fixed_dictionaries(dict(
+    n=size, fn=st.sampled_from(["acorr", "kautocor", "kautocor", "lag_matrix", "kcovar"]),
+    lag=st.integers(1, 4), num=st.sampled_from(["int", "Fraction", "Q"]),
+    seq=st.sampled_from(["list", "tuple", "deque maxlen"]),
+    seed=st.lists(st.integers(0, 999), min_size=2, max_size=4)))
+
+
+def _signal(seedvals, n):
+  """n small integers in -4..4 from a linear congruential recurrence started at the seed values."""
+  state = 12345
+  for v in seedvals:
+    state = (state * 1103515245 + v + 12345) % 2 ** 31
+  out = []
+  for _ in range(n):
+    state = (state * 1103515245 + 12345) % 2 ** 31
+    out.append((state >> 16) % 9 - 4)
+  if not any(out):
+    out[0] = 1
+  return out
+
+
+def _size_label(n):
+  return "n<=1024" if n <= 1024 else ("n<=2048" if n <= 2048 else ("n<=4096" if n <= 4096 else "n>4096"))
+
+
+def run_long(case):
+  """acorr on every case (with the drawn number type), then the drawn function on the same block."""
+  n, fn = case["n"], case["fn"]
+  ints = _signal(case["seed"], n)
+  num = case["num"]
+  labels = ["long:" + fn, _size_label(n), "num:" + num]
+  if num == "int":
+    vals, x = list(ints), [Fraction(v) for v in ints]
+  else:
+    x = [Fraction(v, 4) for v in ints]
+    vals = [Q(v) for v in x] if num == "Q" else list(x)
+  lag = case["lag"]
+  got = acorr(_seq(case["seq"], vals), lag)
+  exp = acorr_ref(x, lag)
+  if not isinstance(got, list) or len(got) != lag + 1:
+    raise Violation("acorr of a %d-sample block, max_lag %d: %d entries expected, got %r" % (n, lag, lag + 1, got))
+  for t in range(lag + 1):
+    if fr(got[t]) != exp[t]:
+      raise Violation("acorr(%s, %d)[%d] = %r, the plain sum of the %d products x[n]x[n+%d] is %s"
+                      % (show(x), lag, t, got[t], n - t, t, exp[t]))
+  if fn in ("kautocor", "kcovar"):
+    # the recursions divide: only Q keeps them exact
+    p = min(lag, 3)
+    sub = dict(blk=[Q(Fraction(v, 4)) for v in ints], order=p, name=fn, how="attr", seq=case["seq"],
+               kw=False, pert=[Q(Fraction(1, 2)), Q(Fraction(-1, 4))], scale=1)
+    rec = run_kauto(sub) if fn == "kautocor" else run_kcovar(sub)
+    return {"nontrivial": rec["nontrivial"], "labels": labels + rec["labels"]}
+  if fn == "lag_matrix":
+    lag = min(lag, 3)
+    got = lag_matrix(_seq(case["seq"], vals), lag)
+    exp = lagm_ref(x, lag)
+    if not isinstance(got, list) or len(got) != lag + 1 or any(len(r) != lag + 1 for r in got):
+      raise Violation("lag_matrix of a %d-sample block, max_lag %d is not a %d x %d table" % (n, lag, lag + 1, lag + 1))
+    for j in range(lag + 1):
+      for i in range(lag + 1):
+        if fr(got[j][i]) != exp[j][i]:
+          raise Violation("lag_matrix(%s, %d)[%d][%d] = %r, expected sum_{n>=%d} x[n-%d]x[n-%d] = %s"
+                          % (show(x), lag, j, i, got[j][i], lag, i, j, exp[j][i]))
+  return {"nontrivial": True, "labels": labels}
+
+
+# ------------------------------------------- results held across later calls
+def strat_held(tier):
+  """2..4 calls one after the other; every result is kept and judged again after
+  the last call.  Blocks include the degenerate ones (single pulses, sparse
+  blocks: all lagged products vanish, every coefficient of the solution is 0),
+  for which a recursion never leaves its starting point."""
+  amp = _sample.filter(lambda v: v != 0)
+  zero = st.just(Q(0))
+
+  def put(t):
+    n, q, a, more = t
+    blk = [Q(0)] * n
+    blk[q % n] = a
+    if more is not None:
+      blk[more[0] % n] = more[1]
+    return blk
+  pulse = st.tuples(st.integers(4, 9), st.integers(0, 8), amp,
+                    st.one_of(st.none(), st.none(), st.tuples(st.integers(0, 8), amp))).map(put)
+  sparse = st.lists(st.one_of(*(w(zero, 3) + [_sample])), min_size=4, max_size=9)
+  dense = st.lists(_sample, min_size=4, max_size=9)
+  blk = st.sampled_from(["pulse", "pulse", "pulse", "sparse", "dense", "dense"]).flatmap(
+    lambda k: {"pulse": pulse, "sparse": sparse, "dense": dense}[k])
+  call = st.fixed_dictionaries(dict(
+    fn=st.sampled_from(["kcovar"] * 5 + ["kautocor"] * 2 + ["levinson", "levinson_default", "acorr", "lag_matrix"]),
+    blk=blk, order=st.integers(1, 3), seq=st.sampled_from(["list", "tuple", "deque maxlen"])))
+  return st.lists(call, min_size=2, max_size=4)
+
+
+def _held_call(c):
+  """-> (result, None) or (None, label) when an allowed exception was raised."""
+  fn, p = c["fn"], c["order"]
+  x = [fr(v) for v in c["blk"]]
+  arg = _seq(c["seq"], c["blk"])
+  if fn == "acorr":
+    return acorr(arg, p), None
+  if fn == "lag_matrix":
+    return lag_matrix(arg, p), None
+  if fn == "kcovar":
+    try:
+      return lpc.kcovar(arg, p), None
+    except (ValueError, ZeroDivisionError):
+      return None, "kcovar raised"
+  rr = acorr_ref(x, p)
+  try:
+    if fn == "kautocor":
+      return lpc.kautocor(arg, p), None
+    r_in = [Q(v) for v in rr]
+    return (levinson_durbin(r_in) if fn == "levinson_default" else levinson_durbin(r_in, p)), None
+  except ParCorError:
+    if first_singular_minor(rr, p) is None:
+      raise Violation("%s on %s, order %d raised ParCorError, but no leading minor is singular" % (fn, show(x), p))
+    return None, "ParCorError"
+
+
+def _held_judge(c, res, when):
+  """The result of call c (made earlier) against the defining equations of its own block.
+  -> coefficient list (filters), None (tables, or the property is silent)."""
+  fn, p = c["fn"], c["order"]
+  x = [fr(v) for v in c["blk"]]
+  what = "%s(%s, %d), judged %s" % (fn, show(x), p, when)
+  if fn == "acorr":
+    if [fr(v) for v in res] != acorr_ref(x, p):
+      raise Violation("%s: %r is not the table of lagged products %s" % (what, res, show(acorr_ref(x, p))))
+    return None
+  if fn == "lag_matrix":
+    exp = lagm_ref(x, p)
+    if [[fr(v) for v in row] for row in res] != exp:
+      raise Violation("%s: %r is not the lag matrix %r" % (what, res, exp))
+    return None
+  if fn == "kcovar":
+    a = coeffs_of(res, p, what)
+    phi = lagm_ref(x, p)
+    for i in range(1, p + 1):
+      if sum(a[j] * phi[i][j] for j in range(p + 1)) != 0:
+        raise Violation("%s -> a=%s: covariance normal equation i=%d is not satisfied" % (what, show(a), i))
+    energy = sum(sum(a[j] * x[t - j] for j in range(p + 1)) ** 2 for t in range(p, len(x)))
+    if res.error != energy:
+      raise Violation("%s -> a=%s: error attribute is %r, the residual energy over n>=p of its block is %s"
+                      % (what, show(a), res.error, energy))
+    return a
+  rr = acorr_ref(x, p)
+  if first_singular_minor(rr, p) is not None:
+    return None
+  a = coeffs_of(res, p, what)
+  for i in range(1, p + 1):
+    if sum(a[j] * rr[abs(i - j)] for j in range(p + 1)) != 0:
+      raise Violation("%s -> a=%s: normal equation i=%d is not satisfied" % (what, show(a), i))
+  err = sum(a[j] * rr[j] for j in range(p + 1))
+  if res.error != err:
+    raise Violation("%s -> a=%s: error attribute is %r, sum_j a[j] r[j] is %s" % (what, show(a), res.error, err))
+  if fn == "kautocor":
+    energy, _ = conv_energy(a, x)
+    if res.error != energy:
+      raise Violation("%s -> a=%s: error attribute is %r, the energy of a * zero-extended block is %s"
+                      % (what, show(a), res.error, energy))
+  return a
+
+
+def run_held(case):
+  held = []
+  labels = []
+  for c in case:
+    res, why = _held_call(c)
+    if res is None:
+      labels.append(why)
+      continue
+    a = _held_judge(c, res, "right after the call")
+    held.append((c, res, a))
+  nz = 0
+  flat = []
+  for k, (c, res, a) in enumerate(held):
+    later = len(held) - 1 - k
+    a2 = _held_judge(c, res, "after %d later call(s) that returned" % later if later else "again")
+    if a2 != a:
+      raise Violation("%s(%s, %d): coefficients were %s right after the call and are %s after later calls"
+                      % (c["fn"], show(c["blk"]), c["order"], a, a2))
+    if a is not None:
+      nz += 1
+      if all(v == 0 for v in a[1:]):
+        flat.append((c["fn"], res.error))
+  labels.append("held results: %d" % len(held))
+  if len([1 for f in flat if f[0] == "kcovar"]) >= 2:
+    labels.append("two kcovar results with all-zero coefficients")
+    if len(set(e for f, e in flat if f == "kcovar")) >= 2:
+      labels.append("two kcovar results with all-zero coefficients, different errors")
+  if len(flat) >= 2:
+    labels.append("two filters with all-zero coefficients")
+  if len(set(c["fn"] for c, _, _ in held)) >= 2:
+    labels.append("mixed functions")
+  return {"nontrivial": len(held) >= 2 and nz >= 1, "labels": labels}
+
+
 _titem = st.one_of(qs(), st.integers(-4, 4), st.floats(allow_nan=False, allow_infinity=False, width=16))
 
 
@@ -553,6 +774,17 @@ CLAUSES = [
   Clause("large_tables", strat_large, run_large, quick=24, thorough=300,
          doc="acorr / lag_matrix on blocks of 100..260 samples with lags 6..16 (tables far larger than any small-size "
              "code path) still equal their defining sums; kcovar on such a block satisfies its normal equations"),
+  Clause("long_blocks", strat_long, run_long, quick=48, thorough=600,
+         floors={"n<=2048": .05, "n<=4096": .05, "long:kautocor": .1},
+         doc="blocks of 300..4200 (thorough 9000) samples, sizes free and next to multiples of 128/250/256/500/512/"
+             "1000/1024: acorr (every case) / lag_matrix are the plain sums (int, Fraction and Q samples), "
+             "kautocor / kcovar satisfy their normal equations and error identities"),
+  Clause("held_results", strat_held, run_held, quick=800, thorough=10000,
+         floors={"two kcovar results with all-zero coefficients, different errors": .01,
+                 "two filters with all-zero coefficients": .03, "mixed functions": .1},
+         doc="2..4 calls in a row (kcovar, kautocor, levinson_durbin, acorr, lag_matrix) on pulse / sparse / "
+             "dense blocks; every result is kept and must still satisfy the equations of its own block after "
+             "the later calls"),
   Clause("tables", strat_tables, run_tables, quick=1000, thorough=15000,
          floors={"acorr": .1, "lag_matrix": .1, "toeplitz": .06, "lag>=len": .02},
          doc="acorr / lag_matrix / toeplitz equal their defining sums / table"),
